@@ -112,6 +112,11 @@ Assign(n, x) ==
 
 SetAuto(b) == auto' = b /\ evald' = {} /\ raised' = FALSE /\ UNCHANGED <<gvars, val, flag, slots, dirty>>
 
+\* save_model / load_model round trip (a crash point anywhere in a history): the model read back is in the same
+\* state - values, pending updates, the auto-update switch - and nothing is evaluated; states saved earlier with
+\* `Model.state` can still be restored into it
+Reload == evald' = {} /\ raised' = FALSE /\ UNCHANGED <<gvars, val, flag, auto, slots, dirty>>
+
 UpdateAll ==
   /\ Set4(Sweep(Node, val, flag, dirty))
   /\ UNCHANGED <<gvars, auto, slots>>
